@@ -9,16 +9,17 @@ from vlib import core, prog, physics
 
 ASSUME = [
     "the unbounded 'converges' is decided as bounded progress: after 12 variance-damping times the widths are within eps of 1 and change by < 1e-4 per synchrotron period over the last five periods",
-    "eps (discretisation error of the grid) = 0.25*delta^2 + 5e-4 for 4-point interpolation with the 4-point derivative stencil and 0.8*delta^2 + 5e-4 for the other combinations of 3/4-point schemes; with the 2-point scheme the grid's numerical diffusion (~delta^2/12 per step) is comparable to the physical diffusion e1, so only stationarity and independence of the start are decided for it",
+    "eps (discretisation error of the grid, plus 0.25*a^2 for the O(a^2) distortion of the equilibrium by the kick-drift splitting) = 0.25*delta^2 + 5e-4 for 4-point interpolation with the 4-point derivative stencil and 0.8*delta^2 + 5e-4 for the other combinations of 3/4-point schemes; with the 2-point scheme the grid's numerical diffusion (~delta^2/12 per step) is comparable to the physical diffusion e1, so only stationarity and independence of the start are decided for it",
     "two different initial zooms must end within 1e-3 of each other",
-    "S = sigma_z^2 + sigma_E^2 - 2 decays by exp(-e1*steps) per synchrotron period (+-5%), e1 = 2/(f_s*t_d*steps) from an independent derivation of f_s; measured where |S - S_final| > 0.05, from the second period on (a start wider than the grid allows is clipped during the first period); initial zoom factors 0.5..1.7 (0.5..1.2 where nothing damps)",
-    "damping only: both widths decrease strictly from one period to the next; diffusion only: both increase strictly; neither (FPType 0 or zero damping time): sigma_z^2+sigma_E^2 stays within 1e-3 relative and each width within the first-order splitting error a*sigma",
+    "S = sigma_z^2 + sigma_E^2 - 2 decays by exp(-e1*steps) per synchrotron period (+-5%), e1 = 2/(f_s*t_d*steps) from an independent derivation of f_s; measured where 0.05 < |S - S_final| < 1 (wider distributions are still being clipped by the grid), from the second period on (a start wider than the grid allows is clipped during the first period); initial zoom factors 0.5..1.7 (0.5..1.2 where nothing damps)",
+    "damping only: both widths decrease strictly from one period to the next (run stopped before the bunch is narrower than four cells); diffusion only: both increase strictly; neither (FPType 0 or zero damping time): sigma_z^2+sigma_E^2 stays within 1e-3 relative and each width within the first-order splitting error a*sigma, over at most 1600 steps",
     "per-step decrements up to half the explicit scheme's stability limit (e1 <= 0.25*delta^2)",
 ]
 
 
-def eps_for(order, deriv, delta):
-    return (0.25 if (order == 4 and deriv == 4) else 0.8) * delta * delta + 5e-4
+def eps_for(order, deriv, delta, a):
+    # discretisation of the grid + O(a^2) distortion of the equilibrium by the kick-drift splitting
+    return (0.25 if (order == 4 and deriv == 4) else 0.8) * delta * delta + 5e-4 + 0.25 * a * a
 
 
 def gen(seed, i, tier):
@@ -73,7 +74,7 @@ def run_case(args):
                 w = dict(options=out["opts"], zoom=z, cmd=" ".join(res["argv"]), final_length=bl[-1], final_spread=es[-1])
                 finals.append((bl[-1], es[-1]))
                 if order >= 3:
-                    eps = eps_for(order, o["derivation"], P0["delta"])
+                    eps = eps_for(order, o["derivation"], P0["delta"], a)
                     for nm, v in (("length", bl[-1]), ("spread", es[-1])):
                         out["res"]["final_width_err_over_eps.order%d" % order] = max(out["res"].get("final_width_err_over_eps.order%d" % order, 0), abs(v - 1) / eps)
                         if abs(v - 1) > eps:
@@ -85,7 +86,7 @@ def run_case(args):
                 S = bl ** 2 + es ** 2
                 S = S - S[-1]        # decay towards the grid's own stationary value
                 want = math.exp(-e1 * steps)
-                ratios = [S[k + 1] / S[k] for k in range(1, len(S) - 1) if abs(S[k]) > 0.05 and abs(S[k + 1]) > 0.05]
+                ratios = [S[k + 1] / S[k] for k in range(1, len(S) - 1) if 0.05 < abs(S[k]) < 1.0 and 0.05 < abs(S[k + 1]) < 1.0]
                 if ratios and order >= 3:
                     dev = max(abs(math.log(x / want)) / (e1 * steps) for x in ratios if x > 0) if all(x > 0 for x in ratios) else 9.0
                     out["res"]["decay_rate_rel_dev"] = max(out["res"].get("decay_rate_rel_dev", 0), dev / 0.05)
@@ -100,9 +101,16 @@ def run_case(args):
                     out["viol"].append(("C04:limit_depends_on_start", "two initial zoom factors relax to different widths", dict(options=out["opts"], zooms=zooms, finals=finals)))
         else:
             fpt = dict(damp=1, diff=2, none=0)[kind]
-            extra = dict(DampingTime=td, rotations=5.0 if kind == 'diff' else 8.0, InitialDistZoom=zooms[i % 2], FPType=fpt)
+            z0 = zooms[i % 2]
+            nper = 5.0 if kind == 'diff' else 8.0
+            if kind == 'damp':
+                # stop before the distribution becomes narrower than four cells (no width is defined below the resolution)
+                nper = max(2.0, min(8.0, math.floor(math.log(z0 / (4 * P0["delta"])) / (e1 * steps / 2))))
+            if kind == 'none':
+                nper = max(2.0, min(8.0, math.floor(1600.0 / steps)))       # interpolation error accumulates with the number of steps
+            extra = dict(DampingTime=td, rotations=nper, InitialDistZoom=z0, FPType=fpt)
             if kind == "none" and i % 12 >= 6:
-                extra = dict(DampingTime=0.0, rotations=8.0, InitialDistZoom=zooms[i % 2])
+                extra = dict(DampingTime=0.0, rotations=nper, InitialDistZoom=z0)
             ser, res = go(extra, "m.h5")
             if ser is not None:
                 bl, es = ser
